@@ -72,10 +72,10 @@ example : matchP W0 (.not (.node "CallExpr" [.any, .any]))
 
 /-- **symbols_complete**: a successful match references a satisfying set of the pattern's
 symbols, so CouldMatchAny cannot reject the package. -/
-theorem symbols_complete (W : World) (hv : Visible W) (p : Pat) (hs : sane p = true)
+theorem symbols_complete (W : World) (hv : Visible W) (p : Pat)
     (t : Tree) (σ : State) (r : Tree × State) (hm : matchP W p t σ = some r) :
     couldMatchAny W p = true :=
-  sym_complete W hv p t σ r hs hm
+  sym_complete W hv p t σ r hm
 
 /-- a world with one function object `0` named "fmt.Sprintf" that the index resolves, and the
 builtin `1` named "len" -/
@@ -106,9 +106,9 @@ theorem W1_visible : Visible W1 := by
     · simp [h0, h1] at hn
 
 /-- non-vacuity: the hypotheses are satisfiable and the pattern matches -/
-example : Visible W1 ∧ sane sprintfPat = true ∧ matchP W1 sprintfPat sprintfCall [] ≠ none ∧
+example : Visible W1 ∧ matchP W1 sprintfPat sprintfCall [] ≠ none ∧
     couldMatchAny W1 sprintfPat = true := by
-  refine ⟨W1_visible, by decide, ?_, ?_⟩
+  refine ⟨W1_visible, ?_, ?_⟩
   · simp [sprintfPat, sprintfCall, matchP, matchFields, symObj, identObj, firstSome, W1]
   · simp [couldMatchAny, symbolsPattern, sprintfPat, collectSymbols, collectSymbolsL, andAdd,
       andFinish, evalSym, sti_sprintf, W1]
@@ -198,7 +198,7 @@ theorem candidates_sub (W : World) (files : List Tree) (p : Pat) (c : Tree)
 node, result+bindings) pairs obtained from the candidates of code.Matches are exactly those
 obtained from all syntax nodes of the package. -/
 theorem filter_exact (W : World) (hv : Visible W) (hf : FuncNames W) (files : List Tree)
-    (hwf : ∀ t ∈ subtreesL files, WFc t) (p : Pat) (hs : sane p = true)
+    (hwf : ∀ t ∈ subtreesL files, WFc t) (p : Pat)
     (n : Tree) (r : Tree × State) (hu : kindOf n ∈ Generated.universeKinds) :
     (∃ t ∈ subtreesL files, norm W p [] t = n ∧ matchP W p t [] = some r) ↔
     (∃ t ∈ candidates W files p, norm W p [] t = n ∧ matchP W p t [] = some r) := by
@@ -209,7 +209,7 @@ theorem filter_exact (W : World) (hv : Visible W) (hf : FuncNames W) (files : Li
     refine ⟨norm W p [] t, ?_, by rw [norm_idem]; exact hn, by rw [norm_match]; exact hm⟩
     have hmem : norm W p [] t ∈ subtreesL files :=
       subtreesL_trans files t ht _ (norm_mem W p [] t hnode hw)
-    have hcould : couldMatchAny W p = true := symbols_complete W hv p hs t [] r hm
+    have hcould : couldMatchAny W p = true := symbols_complete W hv p t [] r hm
     unfold candidates
     simp only [hcould, Bool.not_true, Bool.false_eq_true, if_false]
     by_cases hui : useIndex W (rootCallSymbols p) = true
